@@ -212,7 +212,7 @@ class Interp:
         self.call_stack.append(info)
         self.functions_entered.add(info.qualname)
         try:
-            outs = self.exec_block(info.node.body, env)
+            outs = self.exec_block(self._prenormalised(info.node), env)
         finally:
             self.call_stack.pop()
         self.last_writeback = None
@@ -243,6 +243,17 @@ class Interp:
                 raise AbsRaise("Exception", None, "all paths raise")
             return self.ops.fresh_iter(acc)
         return self._function_result(outs)
+
+    _PRENORM: dict = {}
+
+    def _prenormalised(self, fn_node):
+        """The body of a function with filter loops written as the comprehensions they are (see normalize.filter_loops_to_comprehensions)."""
+        k = id(fn_node)
+        if k not in self._PRENORM:
+            from .normalize import filter_loops_to_comprehensions
+
+            self._PRENORM[k] = (fn_node, filter_loops_to_comprehensions(fn_node.body))
+        return self._PRENORM[k][1]
 
     _GEN_CACHE: dict = {}
 
@@ -380,6 +391,20 @@ class Interp:
 
     def s_Assign(self, st, env):
         v = self.eval(st.value, env)
+        # `acc = acc + f(row)` in a loop over the rows is the accumulation `acc += f(row)` into a fresh tensor: like there, the running sum does not
+        # depend on the position the loop is at
+        if len(st.targets) == 1 and isinstance(st.targets[0], ast.Name) and isinstance(st.value, ast.BinOp) and isinstance(st.value.op, ast.Add) and isinstance(v, TV):
+            nm_ = st.targets[0].id
+            for mine_, other_ in ((st.value.left, st.value.right), (st.value.right, st.value.left)):
+                if isinstance(mine_, ast.Name) and mine_.id == nm_ and not (isinstance(other_, ast.Name) and other_.id == nm_):
+                    from .ops import tv_of
+
+                    cur_ = tv_of(env.lookup(nm_)) if env.lookup(nm_) is not None else None
+                    if cur_ is not None and v.gen - cur_.gen and self.join_depth > 0:
+                        self.event("accumulate", st, op="Add", target=nm_, rhs_origin=sorted(v.origin), over_loop_index=True, target_axes=list(cur_.axes),
+                                   target_poly=repr(cur_.poly) if cur_.poly is not None else None)
+                        v = v.but(gen=cur_.gen)
+                    break
         for t in st.targets:
             self.assign(t, v, env, st)
         return {NORMAL: (env, None)}
@@ -1190,7 +1215,64 @@ class Interp:
     def _comp(self, n, env, kind):
         cenv = Env(env.module, env, env.fn)
         cenv.self_cls = env.self_cls
+        n = self._selection_by_membership(n, env)
         return self._comp_rec(n, n.generators, 0, cenv, kind)
+
+    def _selection_by_membership(self, n, env):
+        """`{k: f(k, v) for k, v in D.items() if k in S}` where every member of S is a key of D (the names of the collections S is made of are
+        among those of D's keys) selects exactly the members of S: it is evaluated as `{k: f(k, D[k]) for k in S}`."""
+        if len(n.generators) != 1 or not hasattr(self.ops, "atoms_of"):
+            return n
+        g = n.generators[0]
+        plain = lambda e: isinstance(e, ast.Name) or (isinstance(e, ast.Attribute) and plain(e.value))
+        if len(g.ifs) != 1 or g.is_async:
+            return n
+        c = g.ifs[0]
+        if not (isinstance(c, ast.Compare) and len(c.ops) == 1 and isinstance(c.ops[0], ast.In) and isinstance(c.left, ast.Name) and plain(c.comparators[0])):
+            return n
+        it, vname = g.iter, None
+        if isinstance(it, ast.Call) and isinstance(it.func, ast.Attribute) and it.func.attr in ("items", "keys") and not it.args and not it.keywords and plain(it.func.value):
+            dexpr = it.func.value
+            if it.func.attr == "items":
+                if not (isinstance(g.target, ast.Tuple) and len(g.target.elts) == 2 and all(isinstance(e, ast.Name) for e in g.target.elts)):
+                    return n
+                kname, vname = g.target.elts[0].id, g.target.elts[1].id
+            elif isinstance(g.target, ast.Name):
+                kname = g.target.id
+            else:
+                return n
+        elif plain(it) and isinstance(g.target, ast.Name):
+            dexpr, kname = it, g.target.id
+        else:
+            return n
+        if c.left.id != kname or kname == vname:
+            return n
+        D, S = self.eval(dexpr, env), self.eval(c.comparators[0], env)
+        if isinstance(D, ObjV) and D.payload is not None:
+            D = D.payload
+        if not isinstance(D, DictV) or D.items is not None or not isinstance(S, (SetV, ListV)):
+            return n
+        dk = self.ops.dict_keys(D)
+        a_d, a_s = (self.ops.atoms_of(dk) if dk is not None else frozenset()), self.ops.atoms_of(S)
+        filt = lambda v: getattr(v, "order", None) is not None and "filtered" in str(v.order[1])
+        if not a_s or not a_s <= a_d or filt(S) or (dk is not None and filt(dk)):
+            return n
+
+        class _Sub(ast.NodeTransformer):
+            def visit_Name(self_, x):
+                if vname is not None and x.id == vname and isinstance(x.ctx, ast.Load):
+                    return ast.copy_location(ast.Subscript(value=dexpr, slice=ast.Name(id=kname, ctx=ast.Load()), ctx=ast.Load()), x)
+                return x
+
+        import copy
+
+        m = copy.copy(n)
+        for f_ in ("key", "value", "elt"):
+            if hasattr(n, f_):
+                setattr(m, f_, ast.fix_missing_locations(_Sub().visit(copy.deepcopy(getattr(n, f_)))))
+        m.generators = [ast.copy_location(ast.comprehension(target=ast.copy_location(ast.Name(id=kname, ctx=ast.Store()), g.target), iter=c.comparators[0], ifs=[], is_async=0), g.target)]
+        self.event("selection_by_membership", n, of=sorted(a_d), selected=sorted(a_s))
+        return m
 
     def _comp_rec(self, n, gens, gi, env, kind, first=None):
         """Evaluates generator ``gi``; returns ListV / DictV."""
